@@ -14,13 +14,17 @@ type Violation struct {
 
 // Result describes one simulated run.
 type Result struct {
-	Prop       string             `json:"prop"`
-	Index      uint64             `json:"index"`
-	Seed       uint64             `json:"seed"`
-	Status     string             `json:"status"` // ok | budget | stalled | foreign
-	Config     string             `json:"config"`
-	NonTrivial bool               `json:"nontrivial"`
-	Distinct   string             `json:"distinct"`
+	Prop       string `json:"prop"`
+	Index      uint64 `json:"index"`
+	Seed       uint64 `json:"seed"`
+	Status     string `json:"status"` // ok | budget | stalled | foreign
+	Config     string `json:"config"`
+	NonTrivial bool   `json:"nontrivial"`
+	Distinct   string `json:"distinct"`
+	// Digest hashes everything the run observed (results, client answers);
+	// the same tape must give the same digest in any process, whatever ran
+	// in that process before.
+	Digest     string             `json:"digest"`
 	SchedHash  string             `json:"sched_hash"`
 	Yields     int                `json:"yields"`
 	Switches   int                `json:"switches"`
